@@ -9,7 +9,7 @@ variable {isUrl : String → Bool}
 /-- URLs an in-place edit of a URL list tries to store -/
 def UOp.urls : UOp → List String
   | .insert _ u => [u] | .append u => [u] | .extend us => us | .iadd us => us
-  | .replace us => us | .setItem _ u => [u] | .setSlice _ _ us => us
+  | .replace us => us | .setItem _ u => [u] | .setSlice _ _ _ us => us
   | _ => []
 
 /-- extend and += store the values one by one: the values before the invalid one stay stored -/
@@ -80,7 +80,7 @@ theorem urlsOp_reject {known items : List String} {op : UOp} {u : String}
   | setItem i v =>
     simp only [UOp.urls, List.mem_singleton] at hu; subst hu
     simp [urlsOp, coerce_invalid hinv]
-  | setSlice a b us =>
+  | setSlice a b st us =>
     simp only [UOp.urls] at hu
     simp [urlsOp, coerceAll_invalid hu hinv]
   | delete i => simp [UOp.urls] at hu
